@@ -43,7 +43,7 @@ def run_property(prop, tier, repo_root, seed, open_findings):
     # the unit is closed under "relies on the contract of": a function whose contract a proof uses is
     # verified in the same run (a change inside a callee must fail the callee's own obligations here, not
     # only under another property)
-    fn_todo = list(u['functions'])
+    fn_todo = list(u['functions']) + [k for k in u.get('thorough_functions', []) if k not in u['functions']]
     fn_done = set()
     while True:
         fn_todo.extend(sorted(k for k in eng.contracts_called if k not in fn_todo))
@@ -58,6 +58,12 @@ def run_property(prop, tier, repo_root, seed, open_findings):
             continue
         if c.options.get('axiom'):
             functions.append({'name': key, 'tier': 'assumed (abstraction boundary)', 'obligations': 0})
+            continue
+        if key in u.get('thorough_functions', []) and tier != 'thorough':
+            # large functions (minutes of VC generation) are verified in the thorough tier only; in the quick tier
+            # their contract is listed as assumed
+            functions.append({'name': key, 'tier': 'P in the thorough tier only (not run in this tier)', 'obligations': 0})
+            eng.assumed_contracts.add(key)
             continue
         if c.options.get('bounded'):
             functions.append({'name': key, 'tier': 'B (contract stated on the real function and executed by the '
